@@ -10,7 +10,12 @@
     CoAP through CoAPPairing / EncryptionContext / PDU batch codec; BLE through BlePairing.put_characteristics /
     ble_request / PDU codec over a scripted GATT client.
 (C) code -> spec: every observation (returned dict or exception, listener calls) - from (B) and from seeded random
-    replies - is validated by TLC against CharIO_Trace (relation Holds); the verdict is TLC's.
+    replies - is validated by TLC against CharIO_Trace (relation CallOK); the verdict is TLC's.
+(H) history dimension (spec/chars/CharIOHist): every case is run as one call of a two-call history in which the
+    caller hands the SAME collection object (list, tuple, set, frozenset, dict view, fresh generator over the same
+    list - whatever the API accepts) to both calls and the accessory answers the second call differently.  Each call
+    is judged against the ids as the caller wrote them and that call's reply; the collection must be unchanged after
+    every call and the accessory must have been asked for exactly the caller's ids.
 """
 from __future__ import annotations
 
@@ -28,7 +33,7 @@ from harness.common import MachineryError
 ALL_CODES = [-70400 - n for n in range(1, 13)] + [70400 + n for n in range(1, 13)] + [-70499, -70400, 70413, 7, 1, -2]
 
 
-# ------------------------------------------------------------------ running cases
+# ------------------------------------------------------------------ running histories
 class Sessions:
     def __init__(self):
         self.s = {}
@@ -51,95 +56,157 @@ class Sessions:
             self.drop(tr)
 
 
-def run_case(sess: Sessions, case, variant, apis=None):
-    """-> list of (api, observation record, detail)"""
+API_NAME = {"ip": "IpPairing", "coap": "CoAPPairing", "ble": "BlePairing"}
+
+
+def apis_for(cases):
+    """[(api key, api name, collection types)] applicable to a history."""
+    c = cases[0]
+    tr, op = c["tr"], c["op"]
+    known = all(x["reqKnown"] for x in cases)
     out = []
-    tr = case["tr"]
-    if tr == "ip" and case["op"] == "read":
-        if apis is None or "ffl" in apis:
-            rec, detail = D.ffl_case(case, variant)
-            out.append(("format_characteristic_list", rec, detail))
-        if not case["reqKnown"]:
+    if tr == "ip" and op == "read":
+        out.append(("ffl", "format_characteristic_list", D.READ_COLLS["ffl"] if known else ["none"]))
+        if not known:
             return out
-    if apis is not None and "pairing" not in apis:
-        return out
-    s = sess.get(tr)
-    rec, detail, healthy = s.run_case(case, variant)
-    name = {"ip": "IpPairing", "coap": "CoAPPairing", "ble": "BlePairing"}[tr] + \
-        (".put_characteristics" if case["op"] == "write" else ".get_characteristics")
-    out.append((name, rec, detail))
-    if not healthy:
-        sess.drop(tr)
+    name = API_NAME[tr] + (".put_characteristics" if op == "write" else ".get_characteristics")
+    out.append(("pairing", name, (D.WRITE_COLLS if op == "write" else D.READ_COLLS)[tr]))
     return out
 
 
-def _note(acc, case, api, rec, detail, variant):
-    key = (json.dumps(case, sort_keys=True), json.dumps(rec, sort_keys=True), api)
+def _tuples(case):
+    return D.IpSession.tuples(case) if case["tr"] == "ip" else D.pdu_tuples(case)
+
+
+def run_history(sess: Sessions, cases, variant, api, colltype):
+    """Both calls of a history with one caller-side collection object -> [(observation, detail)] per call."""
+    tr = cases[0]["tr"]
+    coll = None if colltype == "none" else D.Coll(colltype, [t[:2] for t in _tuples(cases[0])] if api == "ffl"
+                                                  else _tuples(cases[0]))
+    out = []
+    for n, case in enumerate(cases):
+        if api == "ffl":
+            rec, detail = D.ffl_case(case, variant + n, coll)
+        else:
+            s = sess.get(tr)
+            rec, detail, healthy = s.run_case(case, variant + n, coll)
+            if not healthy:
+                sess.drop(tr)
+        out.append((rec, detail))
+    return out
+
+
+def _reply_of(case):
+    return {k: case[k] for k in ("reqKnown", "http", "hasG", "g", "entries")}
+
+
+def _head_of(case):
+    return {k: case[k] for k in ("tr", "op", "items", "perms")}
+
+
+def _record(cases, obs):
+    return {"h": _head_of(cases[0]), "calls": [{"r": _reply_of(c), "o": o} for c, o in zip(cases, obs)]}
+
+
+def _note(acc, cases, api_name, outs, variant, colltype):
+    rec = _record(cases, [o for o, _ in outs])
+    key = (json.dumps(rec, sort_keys=True), api_name)
     e = acc.get(key)
     if e is None:
-        acc[key] = [{"c": case, "o": rec}, 1, api, detail, variant]
+        acc[key] = {"rec": rec, "n": len(outs), "api": api_name, "details": [d for _, d in outs], "variant": variant,
+                    "coll": colltype, "cases": cases, "colls": {colltype: 1}}
     else:
-        e[1] += 1
+        e["n"] += len(outs)
+        e["colls"][colltype] = e["colls"].get(colltype, 0) + 1
+
+
+def _pick_types(types, idx, thorough):
+    if thorough or len(types) <= 3:
+        return list(types)
+    rest = types[1:]
+    a = rest[idx % len(rest)]
+    b = rest[(idx // len(rest) + 1 + idx) % len(rest)]
+    return [types[0], a] + ([b] if b != a else [])
 
 
 def _work(args):
-    jobs, seed = args
+    jobs, seed, thorough = args
     logging.disable(logging.CRITICAL)
     sess = Sessions()
     acc = {}
     try:
-        for idx, case in jobs:
+        for idx, cases in jobs:
             variant = random.Random(seed * 1000003 + idx).randrange(64)
-            for api, rec, detail in run_case(sess, case, variant):
-                _note(acc, case, api, rec, detail, variant)
+            for api, api_name, types in apis_for(cases):
+                for ct in _pick_types(types, idx, thorough):
+                    outs = run_history(sess, cases, variant, api, ct)
+                    _note(acc, cases, api_name, outs, variant, ct)
     finally:
         sess.close()
     return list(acc.values())
 
 
-# ------------------------------------------------------------------ seeded random cases (code -> spec only)
-def _random_cases(rng, n):
+# ------------------------------------------------------------------ histories
+def _histories_from_cases(cases):
+    """Every exported case is the first call of one history and the second call of another: cases with the same
+    request (transport, operation, items, permissions, requested-set-known) are chained cyclically."""
+    groups = {}
+    for c in cases:
+        key = (c["tr"], c["op"], tuple(c["items"]), tuple(c["perms"]), c["reqKnown"])
+        groups.setdefault(key, []).append(c)
     out = []
+    for key in sorted(groups, key=repr):
+        g = sorted(groups[key], key=lambda c: json.dumps(c, sort_keys=True))
+        step = 1 if len(g) < 8 else len(g) // 2 + 1      # a reply of a different kind, not the neighbour
+        for i, c in enumerate(g):
+            out.append([c, g[(i + step) % len(g)]])
+    return out
+
+
+def _rand_reply(rng, tr, op, items):
     E = lambda t, k, s: {"t": t, "k": k, "s": s}  # noqa: E731
+    if tr == "ip":
+        entries = []
+        for _ in range(rng.randrange(0, 8)):
+            if rng.random() < 0.15:
+                entries.append(E(rng.choice(["nondict", "noaid", "noiid"]), 0, 0))
+                continue
+            k = rng.choice(items)
+            if op == "write":
+                entries.append(E("st", k, rng.choice([0, 0, 0, rng.choice(ALL_CODES)])))
+            else:
+                t = rng.choice(["val", "val", "val0", "st"])
+                entries.append(E(t, k, rng.choice(ALL_CODES) if t == "st" else 0))
+        rng.shuffle(entries)
+        has_g = op == "read" and rng.random() < 0.4
+        g = rng.choice([0] + ALL_CODES) if has_g else 0
+        http = "204" if (op == "write" and rng.random() < 0.1) else "207"
+        if http == "204":
+            entries = []
+        return {"http": http, "hasG": has_g, "g": g, "entries": entries}
+    if tr == "coap":
+        sts = [rng.choice([0, 0, rng.randrange(1, 7)]) for _ in items]
+        entries = [E("val", k, 0) if (op == "read" and s == 0) else E("st", k, s) for k, s in zip(items, sts)]
+    else:
+        sts = [rng.choice([0, 0, 0, rng.randrange(1, 7), D.LINK_LOST]) for _ in items]
+        entries = [E("st", k, s) for k, s in zip(items, sts)]
+    return {"http": "pdu", "hasG": False, "g": 0, "entries": entries}
+
+
+def _random_histories(rng, n):
+    out = []
     for _ in range(n):
         tr = rng.choice(["ip", "ip", "ip", "coap", "ble"])
-        nitems = rng.randrange(1, 5)
-        items = sorted(rng.sample([1, 2, 3, 4], nitems))
-        if tr == "ip":
-            op = rng.choice(["read", "write"])
-            perms = [rng.choice(["rw", "wo", "tw", "ro"]) if op == "write" else "rw" for _ in items]
-            entries = []
-            for _ in range(rng.randrange(0, 8)):
-                r = rng.random()
-                if r < 0.15:
-                    entries.append(E(rng.choice(["nondict", "noaid", "noiid"]), 0, 0))
-                    continue
-                k = rng.choice(items)
-                if op == "write":
-                    entries.append(E("st", k, rng.choice([0, 0, 0, rng.choice(ALL_CODES)])))
-                else:
-                    t = rng.choice(["val", "val", "val0", "st"])
-                    entries.append(E(t, k, rng.choice(ALL_CODES) if t == "st" else 0))
-            rng.shuffle(entries)
-            has_g = op == "read" and rng.random() < 0.4
-            g = rng.choice([0] + ALL_CODES) if has_g else 0
-            http = "204" if (op == "write" and rng.random() < 0.1) else "207"
-            if http == "204":
-                entries = []
-            out.append({"tr": "ip", "op": op, "items": items, "perms": perms, "reqKnown": op == "write" or rng.random() < 0.8,
-                        "http": http, "hasG": has_g, "g": g, "entries": entries})
-        elif tr == "coap":
-            op = rng.choice(["read", "write"])
-            perms = [rng.choice(["rw", "wo", "tw", "ro"]) if op == "write" else "rw" for _ in items]
-            sts = [rng.choice([0, 0, rng.randrange(1, 7)]) for _ in items]
-            entries = [E("val", k, 0) if (op == "read" and s == 0) else E("st", k, s) for k, s in zip(items, sts)]
-            out.append({"tr": "coap", "op": op, "items": items, "perms": perms, "reqKnown": True, "http": "pdu",
-                        "hasG": False, "g": 0, "entries": entries})
-        else:
-            perms = [rng.choice(["rw", "wo", "tw", "ro"]) for _ in items]
-            sts = [rng.choice([0, 0, 0, rng.randrange(1, 7), D.LINK_LOST]) for _ in items]
-            out.append({"tr": "ble", "op": "write", "items": items, "perms": perms, "reqKnown": True, "http": "pdu",
-                        "hasG": False, "g": 0, "entries": [E("st", k, s) for k, s in zip(items, sts)]})
+        items = sorted(rng.sample([1, 2, 3, 4], rng.randrange(1, 5)))
+        op = "write" if tr == "ble" else rng.choice(["read", "write"])
+        perms = [rng.choice(["rw", "wo", "tw", "ro"]) if op == "write" else "rw" for _ in items]
+        known = not (tr == "ip" and op == "read") or rng.random() < 0.8
+        hist = []
+        for _ in range(2):
+            c = {"tr": tr, "op": op, "items": items, "perms": perms, "reqKnown": known}
+            c.update(_rand_reply(rng, tr, op, items))
+            hist.append(c)
+        out.append(hist)
     return out
 
 
@@ -162,20 +229,20 @@ def _shape(case):
     return "mixed outcome"
 
 
-def _class_of(entry):
-    rec, n, api, detail, variant = entry
-    return (rec["c"]["tr"], rec["c"]["op"], api, rec["o"]["exc"], _shape(rec["c"]))
+def _class_of(entry, n):
+    o = entry["rec"]["calls"][n]["o"]
+    c = entry["cases"][n]
+    return (c["tr"], c["op"], entry["api"], n + 1, o["exc"], _shape(c), o["collSame"])
 
 
 def _simplicity(entry):
-    rec, n, api, detail, variant = entry
-    c = rec["c"]
-    return (len(c["items"]), len(c["entries"]), sum(p != "rw" for p in c["perms"]), json.dumps(c, sort_keys=True))
+    c = entry["cases"][0]
+    return (len(c["items"]), sum(len(x["entries"]) for x in entry["cases"]), sum(p != "rw" for p in c["perms"]),
+            json.dumps(entry["cases"], sort_keys=True))
 
 
-def _describe(entry):
-    rec, n, api, detail, variant = entry
-    c, o = rec["c"], rec["o"]
+def _describe(entry, n):
+    c, o, detail = entry["cases"][n], entry["rec"]["calls"][n]["o"], entry["details"][n]
     uni = D.U_IP if c["tr"] == "ip" else D.U_PDU
     req = [f"{uni[k]} [{p}]" for k, p in zip(c["items"], c["perms"])]
     if c["tr"] == "ip":
@@ -184,16 +251,30 @@ def _describe(entry):
         reply = f"PDU statuses {detail.get('pdu_statuses')}"
     got = f"raised {detail['raised']}" if o["exc"] else f"returned {detail['returned']}"
     lis = f"; listeners were told {detail.get('listener_calls')}" if c["op"] == "write" else ""
-    return f"{api}({', '.join(req)}) with accessory reply {reply}: {got}{lis}"
+    txt = (f"{entry['api']}({', '.join(req)}) [call {n + 1} of {len(entry['cases'])} with the caller's "
+           f"{detail.get('collection')}] with accessory reply {reply}: {got}{lis}")
+    if not o["collSame"]:
+        if detail.get("collection_before") != detail.get("collection_after"):
+            txt += (f"; THE CALLER'S COLLECTION WAS CHANGED BY THE CALL: {detail.get('collection_before')} -> "
+                    f"{detail.get('collection_after')} (the next call re-using it asks for other ids than the caller "
+                    f"requested)")
+        else:
+            txt += (f"; the caller's collection no longer holds what the caller wrote ({detail.get('collection_original')}): "
+                    f"an earlier call left it as {detail.get('collection_after')}")
+    if o["askedChecked"] and sorted(o["asked"]) != sorted(c["items"]):
+        txt += (f"; the accessory was asked for {[uni.get(k, '?') for k in o['asked']]} although the caller "
+                f"requested {[uni[k] for k in c['items']]}")
+    return txt
 
 
 def _validate(ctx, tmp, entries, label):
+    """-> list of (entry index, call index) rejected by TLC"""
     tf = os.path.join(tmp, "obs.ndjson")
     with open(tf, "w") as f:
         for e in entries:
-            f.write(json.dumps(e[0]) + "\n")
-    res = ctx.tlc("chars/CharIO_Trace", "CharIO_Trace.cfg", env={"TRACE_FILE": tf}, expect_violation=True,
-                  require_cover=False, label=label)
+            f.write(json.dumps(e["rec"]) + "\n")
+    res = ctx.tlc("chars/CharIO_Trace", ctx.pick("CharIO_Trace_light.cfg", "CharIO_Trace.cfg"), env={"TRACE_FILE": tf},
+                  expect_violation=True, require_cover=False, label=label)
     if res.ok:
         return []
     if res.violation["name"] != "Conforms":
@@ -202,51 +283,59 @@ def _validate(ctx, tmp, entries, label):
         return []
     rj = os.path.join(tmp, "rejected.ndjson")
     ctx.tlc("chars/CharIO_Trace", "CharIO_Trace_rejected.cfg", env={"TRACE_FILE": tf, "REJECT_OUT": rj},
-            require_cover=False, label=label + " (list of rejected records)")
-    bad = [int(line) - 1 for line in open(rj) if line.strip()]
+            require_cover=False, label=label + " (list of rejected calls)")
+    bad = []
+    for line in open(rj):
+        if line.strip():
+            t, n = json.loads(line)
+            bad.append((int(t) - 1, int(n) - 1))
     if not bad:
-        raise MachineryError("TLC reported Conforms violated but listed no rejected record")
+        raise MachineryError("TLC reported Conforms violated but listed no rejected call")
     return bad
 
 
 def _report(ctx, entries, bad):
     seen = {}
-    for i in bad:
-        seen.setdefault(_class_of(entries[i]), []).append(entries[i])
+    for i, n in bad:
+        seen.setdefault(_class_of(entries[i], n), []).append((entries[i], n))
     for cls, es in sorted(seen.items(), key=lambda kv: repr(kv[0])):
-        e = min(es, key=_simplicity)
-        ctx.violation(_describe(e) + f"  [rejected by CharIO!{'WriteOK' if cls[1] == 'write' else 'ReadOK'}; "
-                      f"{len(es)} rejected observation(s) of the kind '{cls[4]}']",
-                      {"kind": "observation", "record": e[0], "api": e[2], "detail": e[3], "variant": e[4]})
+        e, n = min(es, key=lambda x: (_simplicity(x[0]), x[1]))
+        ctx.violation(_describe(e, n) + f"  [rejected by CharIO!CallOK ({'WriteOK' if cls[1] == 'write' else 'ReadOK'}"
+                      f"{'' if cls[6] else ', CollectionUntouched'}); {len(es)} rejected call(s) of the kind '{cls[5]}']",
+                      {"kind": "history", "cases": e["cases"], "api": e["api"], "variant": e["variant"], "coll": e["coll"],
+                       "rejected_call": n + 1, "record": e["rec"], "details": e["details"]})
 
 
 def _replay(ctx, tmp):
     data = json.load(open(ctx.replay))["replay"]
-    case, variant = data["record"]["c"], data["variant"]
-    apis = {"ffl"} if data["api"] == "format_characteristic_list" else {"pairing"}
+    cases, variant, colltype = data["cases"], data["variant"], data["coll"]
+    api = "ffl" if data["api"] == "format_characteristic_list" else "pairing"
     logging.disable(logging.CRITICAL)
     sess = Sessions()
     try:
-        outs = run_case(sess, case, variant, apis)
+        outs = run_history(sess, cases, variant, api, colltype)
     finally:
         sess.close()
-    entries = [[{"c": case, "o": rec}, 1, api, detail, variant] for api, rec, detail in outs]
-    for e in entries:
-        print("replay:", _describe(e))
-        ctx.case(("replay", json.dumps(case, sort_keys=True)))
-    bad = _validate(ctx, tmp, entries, "replayed observation")
+    acc = {}
+    _note(acc, cases, data["api"], outs, variant, colltype)
+    entries = list(acc.values())
+    for n in range(len(cases)):
+        print("replay:", _describe(entries[0], n))
+    ctx.case(("replay", json.dumps(cases, sort_keys=True)))
+    bad = _validate(ctx, tmp, entries, "replayed history")
     if bad:
         _report(ctx, entries, bad)
-    ctx.trace_ok(len(entries) - len(bad))
+    ctx.trace_ok(len(cases) - len(bad))
 
 
 def run(ctx):
     ctx.rule = ("cases = (transport, operation, request items with permission classes, accessory reply) enumerated by "
-                "TLC from spec/chars/CharIO.tla plus seeded random replies; distinct by the case and the observed "
-                "outcome; every case is non-trivial (at least one requested characteristic)")
+                "TLC from spec/chars/CharIO.tla plus seeded random replies, each run as one call of a two-call history "
+                "that re-uses the caller's collection object; distinct by the history and the observed outcome; every "
+                "case is non-trivial (at least one requested characteristic)")
     ctx.assume("write replies carry no request-wide status member and mention only requested characteristics; "
                "CoAP / BLE replies carry exactly one PDU outcome per requested characteristic with a defined PDU status "
-               "(0..6) - other replies are outside the claim",
+               "(0..6; BLE also: link lost during a request) - other replies are outside the claim",
                "contradictory duplicated entries (status 0 and a non-zero status for the same characteristic): either "
                "verdict is accepted, nothing may be invented",
                "CoAP / BLE report the PDU status negated / as an enum member: only the magnitude is compared there; "
@@ -254,7 +343,11 @@ def run(ctx):
                "BLE read (get_characteristics) is not anchored by the property and not driven; BLE connection set-up "
                "(_populate_accessories_and_characteristics) is stubbed, no session keys on the scripted GATT link",
                "IP: harness/simnet.py + harness/refacc (pair-verify, secure session, HTTP) are trusted to deliver the "
-               "scripted reply; CoAP: aiocoap's Context is replaced by an object answering the POST")
+               "scripted reply; CoAP: aiocoap's Context is replaced by an object answering the POST",
+               "collection types per API: those the code path can iterate as often as it does (CoAP iterates the "
+               "request twice and indexes writes by position: no one-shot iterables, writes as list / tuple; BLE writes "
+               "in iteration order: ordered collections); a generator is re-created by the caller from its own list "
+               "for every call")
     tmp = tempfile.mkdtemp(prefix="c13_")
     try:
         if ctx.replay:
@@ -264,53 +357,63 @@ def run(ctx):
         out = os.path.join(tmp, "cases.ndjson")
         ctx.tlc("chars/CharIO_Cases", cfg, env={"CASES_OUT": out},
                 label="reply processing of IP / CoAP / BLE over every case + case export")
+        ctx.tlc("chars/CharIOHist", ctx.pick("CharIOHist_quick.cfg", "CharIOHist_real.cfg"),
+                label="two-call histories re-using the caller's collection", ignore_cover=("Init",))
         cases = []
         for line in open(out):
             cases.extend(json.loads(line)["cases"])
         if len(cases) < 1000:
             raise MachineryError("too few cases exported")
-        cases.sort(key=lambda c: json.dumps(c, sort_keys=True))
         ctx.notes["cases_exported"] = len(cases)
-        rcases = _random_cases(ctx.rng, ctx.pick(3000, 150000))
-        jobs = list(enumerate(cases + rcases))
+        hists = _histories_from_cases(cases) + _random_histories(ctx.rng, ctx.pick(1500, 75000))
+        jobs = list(enumerate(hists))
         nproc = min(16, os.cpu_count() or 4)
         # group by (transport, permissions) so that a worker rarely reloads the accessory database
-        jobs.sort(key=lambda j: (j[1]["tr"], j[1]["items"], j[1]["perms"], j[0]))
+        jobs.sort(key=lambda j: (j[1][0]["tr"], j[1][0]["items"], j[1][0]["perms"], j[0]))
         nchunks = nproc * 4
         size = (len(jobs) + nchunks - 1) // nchunks
         chunks = [jobs[i:i + size] for i in range(0, len(jobs), size)]
         with mp.get_context("fork").Pool(nproc) as pool:
-            parts = pool.map(_work, [(ch, ctx.seed) for ch in chunks])
+            parts = pool.map(_work, [(ch, ctx.seed, ctx.thorough) for ch in chunks])
         entries = [e for p in parts for e in p]
-        entries.sort(key=lambda e: (json.dumps(e[0], sort_keys=True), e[2]))
+        entries.sort(key=lambda e: (json.dumps(e["rec"], sort_keys=True), e["api"]))
         for e in entries:
-            ctx.case((json.dumps(e[0], sort_keys=True), e[2]), n=e[1])
+            ctx.case((json.dumps(e["rec"], sort_keys=True), e["api"]), n=e["n"])
+        ctx.notes["histories"] = len(hists)
         ctx.notes["observation_records"] = len(entries)
-        per = {}
+        per, perc = {}, {}
         for e in entries:
-            k = f"{e[0]['c']['tr']}/{e[0]['c']['op']}/{e[2]}"
-            per[k] = per.get(k, 0) + e[1]
+            h = e["rec"]["h"]
+            k = f"{h['tr']}/{h['op']}/{e['api']}"
+            per[k] = per.get(k, 0) + e["n"]
+            for ct, m in e["colls"].items():
+                perc[f"{k} [{ct}]"] = perc.get(f"{k} [{ct}]", 0) + m
         ctx.notes["executions_by_api"] = per
-        # ---------------- (C) TLC validates every observation
+        ctx.notes["histories_by_api_and_collection"] = perc
+        # ---------------- (C) TLC validates every call of every history
         bad = []
-        B = 120000
+        B = 60000
         for off in range(0, len(entries), B):
             part = entries[off:off + B]
-            bad += [off + i for i in _validate(ctx, tmp, part, f"observations {off + 1}..{off + len(part)} of the real code")]
+            bad += [(off + i, n) for i, n in _validate(ctx, tmp, part,
+                                                       f"histories {off + 1}..{off + len(part)} of the real code")]
         if bad:
             _report(ctx, entries, bad)
-        badset = set(bad)
-        ctx.trace_ok(sum(e[1] for i, e in enumerate(entries) if i not in badset))
+        nbad_calls = {}
+        for i, n in bad:
+            nbad_calls[i] = nbad_calls.get(i, 0) + 1
+        ctx.trace_ok(sum(e["n"] - (e["n"] // len(e["cases"])) * nbad_calls.get(i, 0) for i, e in enumerate(entries)))
         want = [("ip", "write", "mixed outcome"), ("ip", "read", "request-wide status"), ("coap", "write", "mixed outcome"),
                 ("ble", "write", "mixed outcome")]
         for tr, op, shp in want:
             for e in entries:
-                c = e[0]["c"]
+                c = e["cases"][0]
                 if c["tr"] == tr and c["op"] == op and _shape(c) == shp and len(c["items"]) >= 2:
-                    ctx.sample({"case": c, "observation": e[0]["o"], "api": e[2], "detail": e[3]})
+                    ctx.sample({"history": e["rec"], "api": e["api"], "collection": e["coll"], "details": e["details"]})
                     break
         ctx.exhaustive = False
-        ctx.notes["exhaustive_part"] = ("TLC: every case of the bounded domain; replay: every exported case on every "
+        ctx.notes["exhaustive_part"] = ("TLC: every case of the bounded domain, every two-call history of CharIOHist; "
+                                        "replay: every exported case as first and as second call of a history on every "
                                         "transport it belongs to")
     finally:
         shutil.rmtree(tmp, ignore_errors=True)
